@@ -126,31 +126,32 @@ Record stream : Type := mkStream {
   st_pending : bytes; st_pendingEnd : bool;
   st_bodyStream : option (list (bytes * rerr));
   st_bodySize : Z; st_bodyRead : Z;
-  st_responded : bool; st_handlerRunning : bool; st_abandoned : bool
+  st_responded : bool; st_handlerRunning : bool; st_abandoned : bool;
+  st_weReset : bool                (* the server itself reset the stream *)
 }.
 
 Definition empty_req : request := mkReq [] [] [104; 116; 116; 112; 115] (* "https" *) None [] [].
 
 Definition new_stream (id : N) (win : Z) : stream :=
   mkStream id win SIdle KData 0 false [] false false false false false 0 false 0 0 0 [] empty_req
-           [] false None 0 0 false false false.
+           [] false None 0 0 false false false false.
 
 (* record updates, written out (no library dependency) *)
 Definition set_state (s : stream) (st : sstate) : stream :=
   mkStream (st_id s) (st_window s) st (st_orig s) (st_started s) (st_headersFinished s) (st_prev s)
     (st_pMethod s) (st_pScheme s) (st_pPath s) (st_pAuth s) (st_regularSeen s) (st_contentLength s) (st_hasCL s)
     (st_recvBody s) (st_headerListSize s) (st_blockFields s) (st_path s) (st_req s) (st_pending s) (st_pendingEnd s)
-    (st_bodyStream s) (st_bodySize s) (st_bodyRead s) (st_responded s) (st_handlerRunning s) (st_abandoned s).
+    (st_bodyStream s) (st_bodySize s) (st_bodyRead s) (st_responded s) (st_handlerRunning s) (st_abandoned s) (st_weReset s).
 Definition set_window (s : stream) (w : Z) : stream :=
   mkStream (st_id s) w (st_state s) (st_orig s) (st_started s) (st_headersFinished s) (st_prev s)
     (st_pMethod s) (st_pScheme s) (st_pPath s) (st_pAuth s) (st_regularSeen s) (st_contentLength s) (st_hasCL s)
     (st_recvBody s) (st_headerListSize s) (st_blockFields s) (st_path s) (st_req s) (st_pending s) (st_pendingEnd s)
-    (st_bodyStream s) (st_bodySize s) (st_bodyRead s) (st_responded s) (st_handlerRunning s) (st_abandoned s).
+    (st_bodyStream s) (st_bodySize s) (st_bodyRead s) (st_responded s) (st_handlerRunning s) (st_abandoned s) (st_weReset s).
 Definition set_orig_started (s : stream) (k : fkind) (t : Z) : stream :=
   mkStream (st_id s) (st_window s) (st_state s) k t (st_headersFinished s) (st_prev s)
     (st_pMethod s) (st_pScheme s) (st_pPath s) (st_pAuth s) (st_regularSeen s) (st_contentLength s) (st_hasCL s)
     (st_recvBody s) (st_headerListSize s) (st_blockFields s) (st_path s) (st_req s) (st_pending s) (st_pendingEnd s)
-    (st_bodyStream s) (st_bodySize s) (st_bodyRead s) (st_responded s) (st_handlerRunning s) (st_abandoned s).
+    (st_bodyStream s) (st_bodySize s) (st_bodyRead s) (st_responded s) (st_handlerRunning s) (st_abandoned s) (st_weReset s).
 (* the header-decoding part of a stream *)
 Record hdr : Type := mkHdr {
   hd_headersFinished : bool; hd_prev : bytes;
@@ -164,29 +165,35 @@ Definition set_hdr (s : stream) (h : hdr) : stream :=
   mkStream (st_id s) (st_window s) (st_state s) (st_orig s) (st_started s) (hd_headersFinished h) (hd_prev h)
     (hd_pMethod h) (hd_pScheme h) (hd_pPath h) (hd_pAuth h) (hd_regularSeen h) (hd_contentLength h) (hd_hasCL h)
     (st_recvBody s) (hd_headerListSize h) (hd_blockFields h) (hd_path h) (hd_req h) (st_pending s) (st_pendingEnd s)
-    (st_bodyStream s) (st_bodySize s) (st_bodyRead s) (st_responded s) (st_handlerRunning s) (st_abandoned s).
+    (st_bodyStream s) (st_bodySize s) (st_bodyRead s) (st_responded s) (st_handlerRunning s) (st_abandoned s) (st_weReset s).
 Definition set_recv (s : stream) (recv : Z) (rq : request) : stream :=
   mkStream (st_id s) (st_window s) (st_state s) (st_orig s) (st_started s) (st_headersFinished s) (st_prev s)
     (st_pMethod s) (st_pScheme s) (st_pPath s) (st_pAuth s) (st_regularSeen s) (st_contentLength s) (st_hasCL s)
     recv (st_headerListSize s) (st_blockFields s) (st_path s) rq (st_pending s) (st_pendingEnd s)
-    (st_bodyStream s) (st_bodySize s) (st_bodyRead s) (st_responded s) (st_handlerRunning s) (st_abandoned s).
+    (st_bodyStream s) (st_bodySize s) (st_bodyRead s) (st_responded s) (st_handlerRunning s) (st_abandoned s) (st_weReset s).
 (* the response-sending part of a stream *)
-Record snd : Type := mkSnd {
+Record sendst : Type := mkSnd {
   sn_window : Z; sn_pending : bytes; sn_pendingEnd : bool;
   sn_bodyStream : option (list (bytes * rerr)); sn_bodySize : Z; sn_bodyRead : Z
 }.
-Definition get_snd (s : stream) : snd :=
+Definition get_snd (s : stream) : sendst :=
   mkSnd (st_window s) (st_pending s) (st_pendingEnd s) (st_bodyStream s) (st_bodySize s) (st_bodyRead s).
-Definition set_snd (s : stream) (n : snd) : stream :=
+Definition set_snd (s : stream) (n : sendst) : stream :=
   mkStream (st_id s) (sn_window n) (st_state s) (st_orig s) (st_started s) (st_headersFinished s) (st_prev s)
     (st_pMethod s) (st_pScheme s) (st_pPath s) (st_pAuth s) (st_regularSeen s) (st_contentLength s) (st_hasCL s)
     (st_recvBody s) (st_headerListSize s) (st_blockFields s) (st_path s) (st_req s) (sn_pending n) (sn_pendingEnd n)
-    (sn_bodyStream n) (sn_bodySize n) (sn_bodyRead n) (st_responded s) (st_handlerRunning s) (st_abandoned s).
+    (sn_bodyStream n) (sn_bodySize n) (sn_bodyRead n) (st_responded s) (st_handlerRunning s) (st_abandoned s) (st_weReset s).
 Definition set_flags (s : stream) (responded running abandoned : bool) : stream :=
   mkStream (st_id s) (st_window s) (st_state s) (st_orig s) (st_started s) (st_headersFinished s) (st_prev s)
     (st_pMethod s) (st_pScheme s) (st_pPath s) (st_pAuth s) (st_regularSeen s) (st_contentLength s) (st_hasCL s)
     (st_recvBody s) (st_headerListSize s) (st_blockFields s) (st_path s) (st_req s) (st_pending s) (st_pendingEnd s)
-    (st_bodyStream s) (st_bodySize s) (st_bodyRead s) responded running abandoned.
+    (st_bodyStream s) (st_bodySize s) (st_bodyRead s) responded running abandoned (st_weReset s).
+
+Definition set_weReset (s : stream) : stream :=
+  mkStream (st_id s) (st_window s) (st_state s) (st_orig s) (st_started s) (st_headersFinished s) (st_prev s)
+    (st_pMethod s) (st_pScheme s) (st_pPath s) (st_pAuth s) (st_regularSeen s) (st_contentLength s) (st_hasCL s)
+    (st_recvBody s) (st_headerListSize s) (st_blockFields s) (st_path s) (st_req s) (st_pending s) (st_pendingEnd s)
+    (st_bodyStream s) (st_bodySize s) (st_bodyRead s) (st_responded s) (st_handlerRunning s) (st_abandoned s) true.
 
 Definition has_more_to_send (s : stream) : bool :=
   negb (match st_pending s with [] => true | _ => false end)
@@ -276,101 +283,73 @@ Variable enc_set_max : hstate -> N -> hstate.
 (* ---------- connection state ---------- *)
 
 Record sconn : Type := mkConn {
-  sc_strms : list stream;            (* the stream table, in order *)
-  sc_gone : list stream;             (* closed while their handler runs (abandoned), out of the table *)
-  sc_open : Z;                       (* openStreams *)
-  sc_initWin : Z;                    (* curInitialWindow *)
-  sc_ring : list N; sc_oldest : N;    (* closedRing, closedOldest; closedStrms = the ring's contents *)
+  sc_strms : list stream;   (* the stream table, in order *)
+  sc_gone : list stream;   (* closed while their handler runs (abandoned), out of the table *)
+  sc_open : Z;   (* openStreams *)
+  sc_initWin : Z;   (* curInitialWindow *)
+  sc_ring : list (N * bool);   (* closedRing with closedStrms' value: (id, reset by the server) *)
+  sc_oldest : N;   (* closedOldest *)
   sc_lastID : N;
   sc_clientWindow : Z;
   sc_currentWindow : Z;
-  sc_enc : hstate; sc_dec : hstate;
-  sc_closing : bool;                 (* sc.state == connStateClosed *)
+  sc_enc : hstate;
+  sc_dec : hstate;
+  sc_closing : bool;   (* sc.state == connStateClosed *)
   sc_closeRef : N;
-  sc_expectCont : N;                 (* read loop's expectContinuation *)
-  sc_readerQ : list sframe;           (* sc.reader *)
-  sc_rl_done : bool; sc_sl_done : bool;
-  sc_closer : bool;                  (* closer flag_has been closed *)
-  sc_wl_dead : bool;                 (* the write loop has returned: queued frames are dropped *)
+  sc_expectCont : N;   (* read loop's expectContinuation *)
+  sc_readerQ : list sframe;   (* sc.reader *)
+  sc_rl_done : bool;
+  sc_sl_done : bool;
+  sc_closer : bool;   (* closer has been closed *)
+  sc_wl_dead : bool;   (* the write loop has returned: queued frames are dropped *)
   sc_now : Z;
-  sc_out : list outev                (* everything emitted, newest first *)
+  sc_discardID : N;   (* stream whose header block is being decoded and thrown away *)
+  sc_discardPrev : bytes;
+  sc_discardFields : N;
+  sc_out : list outev   (* everything emitted, newest first *)
 }.
 
 Definition upd_out (c : sconn) (o : list outev) : sconn :=
-  mkConn (sc_strms c) (sc_gone c) (sc_open c) (sc_initWin c) (sc_ring c) (sc_oldest c) (sc_lastID c) (sc_clientWindow c)
-    (sc_currentWindow c) (sc_enc c) (sc_dec c) (sc_closing c) (sc_closeRef c) (sc_expectCont c) (sc_readerQ c)
-    (sc_rl_done c) (sc_sl_done c) (sc_closer c) (sc_wl_dead c) (sc_now c) o.
+  mkConn (sc_strms c) (sc_gone c) (sc_open c) (sc_initWin c) (sc_ring c) (sc_oldest c) (sc_lastID c) (sc_clientWindow c) (sc_currentWindow c) (sc_enc c) (sc_dec c) (sc_closing c) (sc_closeRef c) (sc_expectCont c) (sc_readerQ c) (sc_rl_done c) (sc_sl_done c) (sc_closer c) (sc_wl_dead c) (sc_now c) (sc_discardID c) (sc_discardPrev c) (sc_discardFields c) o.
 Definition upd_strms (c : sconn) (l : list stream) : sconn :=
-  mkConn l (sc_gone c) (sc_open c) (sc_initWin c) (sc_ring c) (sc_oldest c) (sc_lastID c) (sc_clientWindow c)
-    (sc_currentWindow c) (sc_enc c) (sc_dec c) (sc_closing c) (sc_closeRef c) (sc_expectCont c) (sc_readerQ c)
-    (sc_rl_done c) (sc_sl_done c) (sc_closer c) (sc_wl_dead c) (sc_now c) (sc_out c).
+  mkConn l (sc_gone c) (sc_open c) (sc_initWin c) (sc_ring c) (sc_oldest c) (sc_lastID c) (sc_clientWindow c) (sc_currentWindow c) (sc_enc c) (sc_dec c) (sc_closing c) (sc_closeRef c) (sc_expectCont c) (sc_readerQ c) (sc_rl_done c) (sc_sl_done c) (sc_closer c) (sc_wl_dead c) (sc_now c) (sc_discardID c) (sc_discardPrev c) (sc_discardFields c) (sc_out c).
 Definition upd_gone (c : sconn) (l : list stream) : sconn :=
-  mkConn (sc_strms c) l (sc_open c) (sc_initWin c) (sc_ring c) (sc_oldest c) (sc_lastID c) (sc_clientWindow c)
-    (sc_currentWindow c) (sc_enc c) (sc_dec c) (sc_closing c) (sc_closeRef c) (sc_expectCont c) (sc_readerQ c)
-    (sc_rl_done c) (sc_sl_done c) (sc_closer c) (sc_wl_dead c) (sc_now c) (sc_out c).
+  mkConn (sc_strms c) l (sc_open c) (sc_initWin c) (sc_ring c) (sc_oldest c) (sc_lastID c) (sc_clientWindow c) (sc_currentWindow c) (sc_enc c) (sc_dec c) (sc_closing c) (sc_closeRef c) (sc_expectCont c) (sc_readerQ c) (sc_rl_done c) (sc_sl_done c) (sc_closer c) (sc_wl_dead c) (sc_now c) (sc_discardID c) (sc_discardPrev c) (sc_discardFields c) (sc_out c).
 Definition upd_open (c : sconn) (n : Z) : sconn :=
-  mkConn (sc_strms c) (sc_gone c) n (sc_initWin c) (sc_ring c) (sc_oldest c) (sc_lastID c) (sc_clientWindow c)
-    (sc_currentWindow c) (sc_enc c) (sc_dec c) (sc_closing c) (sc_closeRef c) (sc_expectCont c) (sc_readerQ c)
-    (sc_rl_done c) (sc_sl_done c) (sc_closer c) (sc_wl_dead c) (sc_now c) (sc_out c).
+  mkConn (sc_strms c) (sc_gone c) n (sc_initWin c) (sc_ring c) (sc_oldest c) (sc_lastID c) (sc_clientWindow c) (sc_currentWindow c) (sc_enc c) (sc_dec c) (sc_closing c) (sc_closeRef c) (sc_expectCont c) (sc_readerQ c) (sc_rl_done c) (sc_sl_done c) (sc_closer c) (sc_wl_dead c) (sc_now c) (sc_discardID c) (sc_discardPrev c) (sc_discardFields c) (sc_out c).
 Definition upd_initWin (c : sconn) (n : Z) : sconn :=
-  mkConn (sc_strms c) (sc_gone c) (sc_open c) n (sc_ring c) (sc_oldest c) (sc_lastID c) (sc_clientWindow c)
-    (sc_currentWindow c) (sc_enc c) (sc_dec c) (sc_closing c) (sc_closeRef c) (sc_expectCont c) (sc_readerQ c)
-    (sc_rl_done c) (sc_sl_done c) (sc_closer c) (sc_wl_dead c) (sc_now c) (sc_out c).
-Definition upd_ring (c : sconn) (r : list N) (o : N) : sconn :=
-  mkConn (sc_strms c) (sc_gone c) (sc_open c) (sc_initWin c) r o (sc_lastID c) (sc_clientWindow c)
-    (sc_currentWindow c) (sc_enc c) (sc_dec c) (sc_closing c) (sc_closeRef c) (sc_expectCont c) (sc_readerQ c)
-    (sc_rl_done c) (sc_sl_done c) (sc_closer c) (sc_wl_dead c) (sc_now c) (sc_out c).
+  mkConn (sc_strms c) (sc_gone c) (sc_open c) n (sc_ring c) (sc_oldest c) (sc_lastID c) (sc_clientWindow c) (sc_currentWindow c) (sc_enc c) (sc_dec c) (sc_closing c) (sc_closeRef c) (sc_expectCont c) (sc_readerQ c) (sc_rl_done c) (sc_sl_done c) (sc_closer c) (sc_wl_dead c) (sc_now c) (sc_discardID c) (sc_discardPrev c) (sc_discardFields c) (sc_out c).
+Definition upd_ring (c : sconn) (r : list (N * bool)) (o : N) : sconn :=
+  mkConn (sc_strms c) (sc_gone c) (sc_open c) (sc_initWin c) r o (sc_lastID c) (sc_clientWindow c) (sc_currentWindow c) (sc_enc c) (sc_dec c) (sc_closing c) (sc_closeRef c) (sc_expectCont c) (sc_readerQ c) (sc_rl_done c) (sc_sl_done c) (sc_closer c) (sc_wl_dead c) (sc_now c) (sc_discardID c) (sc_discardPrev c) (sc_discardFields c) (sc_out c).
 Definition upd_lastID (c : sconn) (n : N) : sconn :=
-  mkConn (sc_strms c) (sc_gone c) (sc_open c) (sc_initWin c) (sc_ring c) (sc_oldest c) n (sc_clientWindow c)
-    (sc_currentWindow c) (sc_enc c) (sc_dec c) (sc_closing c) (sc_closeRef c) (sc_expectCont c) (sc_readerQ c)
-    (sc_rl_done c) (sc_sl_done c) (sc_closer c) (sc_wl_dead c) (sc_now c) (sc_out c).
+  mkConn (sc_strms c) (sc_gone c) (sc_open c) (sc_initWin c) (sc_ring c) (sc_oldest c) n (sc_clientWindow c) (sc_currentWindow c) (sc_enc c) (sc_dec c) (sc_closing c) (sc_closeRef c) (sc_expectCont c) (sc_readerQ c) (sc_rl_done c) (sc_sl_done c) (sc_closer c) (sc_wl_dead c) (sc_now c) (sc_discardID c) (sc_discardPrev c) (sc_discardFields c) (sc_out c).
 Definition upd_clientWindow (c : sconn) (n : Z) : sconn :=
-  mkConn (sc_strms c) (sc_gone c) (sc_open c) (sc_initWin c) (sc_ring c) (sc_oldest c) (sc_lastID c) n
-    (sc_currentWindow c) (sc_enc c) (sc_dec c) (sc_closing c) (sc_closeRef c) (sc_expectCont c) (sc_readerQ c)
-    (sc_rl_done c) (sc_sl_done c) (sc_closer c) (sc_wl_dead c) (sc_now c) (sc_out c).
+  mkConn (sc_strms c) (sc_gone c) (sc_open c) (sc_initWin c) (sc_ring c) (sc_oldest c) (sc_lastID c) n (sc_currentWindow c) (sc_enc c) (sc_dec c) (sc_closing c) (sc_closeRef c) (sc_expectCont c) (sc_readerQ c) (sc_rl_done c) (sc_sl_done c) (sc_closer c) (sc_wl_dead c) (sc_now c) (sc_discardID c) (sc_discardPrev c) (sc_discardFields c) (sc_out c).
 Definition upd_currentWindow (c : sconn) (n : Z) : sconn :=
-  mkConn (sc_strms c) (sc_gone c) (sc_open c) (sc_initWin c) (sc_ring c) (sc_oldest c) (sc_lastID c) (sc_clientWindow c)
-    n (sc_enc c) (sc_dec c) (sc_closing c) (sc_closeRef c) (sc_expectCont c) (sc_readerQ c)
-    (sc_rl_done c) (sc_sl_done c) (sc_closer c) (sc_wl_dead c) (sc_now c) (sc_out c).
+  mkConn (sc_strms c) (sc_gone c) (sc_open c) (sc_initWin c) (sc_ring c) (sc_oldest c) (sc_lastID c) (sc_clientWindow c) n (sc_enc c) (sc_dec c) (sc_closing c) (sc_closeRef c) (sc_expectCont c) (sc_readerQ c) (sc_rl_done c) (sc_sl_done c) (sc_closer c) (sc_wl_dead c) (sc_now c) (sc_discardID c) (sc_discardPrev c) (sc_discardFields c) (sc_out c).
 Definition upd_enc (c : sconn) (h : hstate) : sconn :=
-  mkConn (sc_strms c) (sc_gone c) (sc_open c) (sc_initWin c) (sc_ring c) (sc_oldest c) (sc_lastID c) (sc_clientWindow c)
-    (sc_currentWindow c) h (sc_dec c) (sc_closing c) (sc_closeRef c) (sc_expectCont c) (sc_readerQ c)
-    (sc_rl_done c) (sc_sl_done c) (sc_closer c) (sc_wl_dead c) (sc_now c) (sc_out c).
+  mkConn (sc_strms c) (sc_gone c) (sc_open c) (sc_initWin c) (sc_ring c) (sc_oldest c) (sc_lastID c) (sc_clientWindow c) (sc_currentWindow c) h (sc_dec c) (sc_closing c) (sc_closeRef c) (sc_expectCont c) (sc_readerQ c) (sc_rl_done c) (sc_sl_done c) (sc_closer c) (sc_wl_dead c) (sc_now c) (sc_discardID c) (sc_discardPrev c) (sc_discardFields c) (sc_out c).
 Definition upd_dec (c : sconn) (h : hstate) : sconn :=
-  mkConn (sc_strms c) (sc_gone c) (sc_open c) (sc_initWin c) (sc_ring c) (sc_oldest c) (sc_lastID c) (sc_clientWindow c)
-    (sc_currentWindow c) (sc_enc c) h (sc_closing c) (sc_closeRef c) (sc_expectCont c) (sc_readerQ c)
-    (sc_rl_done c) (sc_sl_done c) (sc_closer c) (sc_wl_dead c) (sc_now c) (sc_out c).
+  mkConn (sc_strms c) (sc_gone c) (sc_open c) (sc_initWin c) (sc_ring c) (sc_oldest c) (sc_lastID c) (sc_clientWindow c) (sc_currentWindow c) (sc_enc c) h (sc_closing c) (sc_closeRef c) (sc_expectCont c) (sc_readerQ c) (sc_rl_done c) (sc_sl_done c) (sc_closer c) (sc_wl_dead c) (sc_now c) (sc_discardID c) (sc_discardPrev c) (sc_discardFields c) (sc_out c).
 Definition upd_closing (c : sconn) (b : bool) (ref : N) : sconn :=
-  mkConn (sc_strms c) (sc_gone c) (sc_open c) (sc_initWin c) (sc_ring c) (sc_oldest c) (sc_lastID c) (sc_clientWindow c)
-    (sc_currentWindow c) (sc_enc c) (sc_dec c) b ref (sc_expectCont c) (sc_readerQ c)
-    (sc_rl_done c) (sc_sl_done c) (sc_closer c) (sc_wl_dead c) (sc_now c) (sc_out c).
+  mkConn (sc_strms c) (sc_gone c) (sc_open c) (sc_initWin c) (sc_ring c) (sc_oldest c) (sc_lastID c) (sc_clientWindow c) (sc_currentWindow c) (sc_enc c) (sc_dec c) b ref (sc_expectCont c) (sc_readerQ c) (sc_rl_done c) (sc_sl_done c) (sc_closer c) (sc_wl_dead c) (sc_now c) (sc_discardID c) (sc_discardPrev c) (sc_discardFields c) (sc_out c).
 Definition upd_expectCont (c : sconn) (n : N) : sconn :=
-  mkConn (sc_strms c) (sc_gone c) (sc_open c) (sc_initWin c) (sc_ring c) (sc_oldest c) (sc_lastID c) (sc_clientWindow c)
-    (sc_currentWindow c) (sc_enc c) (sc_dec c) (sc_closing c) (sc_closeRef c) n (sc_readerQ c)
-    (sc_rl_done c) (sc_sl_done c) (sc_closer c) (sc_wl_dead c) (sc_now c) (sc_out c).
+  mkConn (sc_strms c) (sc_gone c) (sc_open c) (sc_initWin c) (sc_ring c) (sc_oldest c) (sc_lastID c) (sc_clientWindow c) (sc_currentWindow c) (sc_enc c) (sc_dec c) (sc_closing c) (sc_closeRef c) n (sc_readerQ c) (sc_rl_done c) (sc_sl_done c) (sc_closer c) (sc_wl_dead c) (sc_now c) (sc_discardID c) (sc_discardPrev c) (sc_discardFields c) (sc_out c).
 Definition upd_readerQ (c : sconn) (q : list sframe) : sconn :=
-  mkConn (sc_strms c) (sc_gone c) (sc_open c) (sc_initWin c) (sc_ring c) (sc_oldest c) (sc_lastID c) (sc_clientWindow c)
-    (sc_currentWindow c) (sc_enc c) (sc_dec c) (sc_closing c) (sc_closeRef c) (sc_expectCont c) q
-    (sc_rl_done c) (sc_sl_done c) (sc_closer c) (sc_wl_dead c) (sc_now c) (sc_out c).
+  mkConn (sc_strms c) (sc_gone c) (sc_open c) (sc_initWin c) (sc_ring c) (sc_oldest c) (sc_lastID c) (sc_clientWindow c) (sc_currentWindow c) (sc_enc c) (sc_dec c) (sc_closing c) (sc_closeRef c) (sc_expectCont c) q (sc_rl_done c) (sc_sl_done c) (sc_closer c) (sc_wl_dead c) (sc_now c) (sc_discardID c) (sc_discardPrev c) (sc_discardFields c) (sc_out c).
 Definition upd_done (c : sconn) (rl sl : bool) : sconn :=
-  mkConn (sc_strms c) (sc_gone c) (sc_open c) (sc_initWin c) (sc_ring c) (sc_oldest c) (sc_lastID c) (sc_clientWindow c)
-    (sc_currentWindow c) (sc_enc c) (sc_dec c) (sc_closing c) (sc_closeRef c) (sc_expectCont c) (sc_readerQ c)
-    rl sl (sc_closer c) (sc_wl_dead c) (sc_now c) (sc_out c).
+  mkConn (sc_strms c) (sc_gone c) (sc_open c) (sc_initWin c) (sc_ring c) (sc_oldest c) (sc_lastID c) (sc_clientWindow c) (sc_currentWindow c) (sc_enc c) (sc_dec c) (sc_closing c) (sc_closeRef c) (sc_expectCont c) (sc_readerQ c) rl sl (sc_closer c) (sc_wl_dead c) (sc_now c) (sc_discardID c) (sc_discardPrev c) (sc_discardFields c) (sc_out c).
 Definition upd_closer (c : sconn) (b : bool) : sconn :=
-  mkConn (sc_strms c) (sc_gone c) (sc_open c) (sc_initWin c) (sc_ring c) (sc_oldest c) (sc_lastID c) (sc_clientWindow c)
-    (sc_currentWindow c) (sc_enc c) (sc_dec c) (sc_closing c) (sc_closeRef c) (sc_expectCont c) (sc_readerQ c)
-    (sc_rl_done c) (sc_sl_done c) b (sc_wl_dead c) (sc_now c) (sc_out c).
+  mkConn (sc_strms c) (sc_gone c) (sc_open c) (sc_initWin c) (sc_ring c) (sc_oldest c) (sc_lastID c) (sc_clientWindow c) (sc_currentWindow c) (sc_enc c) (sc_dec c) (sc_closing c) (sc_closeRef c) (sc_expectCont c) (sc_readerQ c) (sc_rl_done c) (sc_sl_done c) b (sc_wl_dead c) (sc_now c) (sc_discardID c) (sc_discardPrev c) (sc_discardFields c) (sc_out c).
 Definition upd_wl_dead (c : sconn) (b : bool) : sconn :=
-  mkConn (sc_strms c) (sc_gone c) (sc_open c) (sc_initWin c) (sc_ring c) (sc_oldest c) (sc_lastID c) (sc_clientWindow c)
-    (sc_currentWindow c) (sc_enc c) (sc_dec c) (sc_closing c) (sc_closeRef c) (sc_expectCont c) (sc_readerQ c)
-    (sc_rl_done c) (sc_sl_done c) (sc_closer c) b (sc_now c) (sc_out c).
+  mkConn (sc_strms c) (sc_gone c) (sc_open c) (sc_initWin c) (sc_ring c) (sc_oldest c) (sc_lastID c) (sc_clientWindow c) (sc_currentWindow c) (sc_enc c) (sc_dec c) (sc_closing c) (sc_closeRef c) (sc_expectCont c) (sc_readerQ c) (sc_rl_done c) (sc_sl_done c) (sc_closer c) b (sc_now c) (sc_discardID c) (sc_discardPrev c) (sc_discardFields c) (sc_out c).
 Definition upd_now (c : sconn) (t : Z) : sconn :=
-  mkConn (sc_strms c) (sc_gone c) (sc_open c) (sc_initWin c) (sc_ring c) (sc_oldest c) (sc_lastID c) (sc_clientWindow c)
-    (sc_currentWindow c) (sc_enc c) (sc_dec c) (sc_closing c) (sc_closeRef c) (sc_expectCont c) (sc_readerQ c)
-    (sc_rl_done c) (sc_sl_done c) (sc_closer c) (sc_wl_dead c) t (sc_out c).
+  mkConn (sc_strms c) (sc_gone c) (sc_open c) (sc_initWin c) (sc_ring c) (sc_oldest c) (sc_lastID c) (sc_clientWindow c) (sc_currentWindow c) (sc_enc c) (sc_dec c) (sc_closing c) (sc_closeRef c) (sc_expectCont c) (sc_readerQ c) (sc_rl_done c) (sc_sl_done c) (sc_closer c) (sc_wl_dead c) t (sc_discardID c) (sc_discardPrev c) (sc_discardFields c) (sc_out c).
+Definition upd_discard (c : sconn) (id : N) (prev : bytes) (n : N) : sconn :=
+  mkConn (sc_strms c) (sc_gone c) (sc_open c) (sc_initWin c) (sc_ring c) (sc_oldest c) (sc_lastID c) (sc_clientWindow c) (sc_currentWindow c) (sc_enc c) (sc_dec c) (sc_closing c) (sc_closeRef c) (sc_expectCont c) (sc_readerQ c) (sc_rl_done c) (sc_sl_done c) (sc_closer c) (sc_wl_dead c) (sc_now c) id prev n (sc_out c).
 
 Definition init_conn (cfg : config) (h0 : hstate) : sconn :=
-  mkConn [] [] 0 65535 [] 0 0 65535 (cf_maxWindow cfg) h0 h0 false 0 0 [] false false false false 0 [].
+  mkConn [] [] 0 65535 [] 0 0 65535 (cf_maxWindow cfg) h0 h0 false 0 0 [] false false false false 0 0 [] 0 [].
 
 (* sc.write(fr): the frame reaches the peer unless the write loop has gone *)
 Definition emit (c : sconn) (o : outev) : sconn :=
@@ -410,19 +389,22 @@ Definition get_previous_headers (l : list stream) : option stream :=
 
 (* ---------- markClosed / releaseStream / closeStream ---------- *)
 
-Definition in_ring (c : sconn) (id : N) : bool := existsb (N.eqb id) (sc_ring c).
+Definition in_ring (c : sconn) (id : N) : bool := existsb (fun e => N.eqb id (fst e)) (sc_ring c).
+(* closedStrms[id]: Some weReset when the id is remembered *)
+Definition ring_find (c : sconn) (id : N) : option bool :=
+  match find (fun e => N.eqb id (fst e)) (sc_ring c) with Some e => Some (snd e) | None => None end.
 
-Fixpoint set_nth_N (l : list N) (i : nat) (x : N) : list N :=
+Fixpoint set_nth_N (l : list (N * bool)) (i : nat) (x : N * bool) : list (N * bool) :=
   match l, i with
   | [], _ => []
   | _ :: t, O => x :: t
   | h :: t, S i' => h :: set_nth_N t i' x
   end.
 
-Definition mark_closed (c : sconn) (id : N) : sconn :=
+Definition mark_closed (c : sconn) (id : N) (weReset : bool) : sconn :=
   if in_ring c id then c
-  else if len (sc_ring c) <? closedStrmsCap then upd_ring c (sc_ring c ++ [id]) (sc_oldest c)
-  else upd_ring c (set_nth_N (sc_ring c) (N.to_nat (sc_oldest c)) id) ((sc_oldest c + 1) mod closedStrmsCap).
+  else if N.of_nat (length (sc_ring c)) <? closedStrmsCap then upd_ring c (sc_ring c ++ [(id, weReset)]) (sc_oldest c)
+  else upd_ring c (set_nth_N (sc_ring c) (N.to_nat (sc_oldest c)) (id, weReset)) ((sc_oldest c + 1) mod closedStrmsCap).
 
 Definition release_stream (c : sconn) (s : stream) : sconn :=
   let c1 := if fkind_eqb (st_orig s) KHeaders then upd_open c (sc_open c - 1) else c in
@@ -430,7 +412,7 @@ Definition release_stream (c : sconn) (s : stream) : sconn :=
 
 (* closeStream; the stream's current value is passed in (the caller holds the pointer) *)
 Definition close_stream (c : sconn) (s : stream) : sconn :=
-  let c1 := mark_closed c (st_id s) in
+  let c1 := mark_closed c (st_id s) (st_weReset s) in
   let c2 := upd_strms c1 (strms_del (sc_strms c1) (st_id s)) in
   (* closeBodyStream *)
   let s1 := set_snd s (mkSnd (st_window s) (st_pending s) (st_pendingEnd s) None (st_bodySize s) (st_bodyRead s)) in
@@ -446,6 +428,10 @@ Definition can_close_after_goaway (c : sconn) : bool :=
 
 Definition write_reset (c : sconn) (sid code : N) : sconn := emit c (ORst sid code).
 
+(* resetStream: the reset is the server's doing; returns the stream with the flag set *)
+Definition reset_stream (c : sconn) (s : stream) (code : N) : sconn * stream :=
+  (write_reset c (st_id s) code, set_weReset s).
+
 Definition write_goaway (c : sconn) (sid code : N) : sconn :=
   let last := sc_lastID c in
   let c1 := upd_closing c true (if sid =? 0 then sc_closeRef c else last) in
@@ -457,7 +443,7 @@ Definition write_error (c : sconn) (s : option stream) (e : h2err) : sconn * opt
   | EGoAway code, None => (write_goaway c 0 code, None)
   | EGoAway code, Some st => (write_goaway c (st_id st) code, Some (set_state st SClosed))
   | EReset code, None => (write_goaway c 0 code, None)
-  | EReset code, Some st => (write_reset c (st_id st) code, Some (set_state st SClosed))
+  | EReset code, Some st => (write_reset c (st_id st) code, Some (set_state (set_weReset st) SClosed))
   | EPanic, _ => (c, s)
   end.
 
@@ -546,31 +532,70 @@ Definition header_field (cfg : config) (h : hdr) (k v : bytes) : h2err + hdr :=
 (* the decoding loop of handleHeaderFrame. fuel >= length b + 1: every DField consumes input.
    Note: a stream error returns at once, leaving the rest of the block undecoded. *)
 Fixpoint header_loop (fuel : nat) (cfg : config) (eh : bool) (d : hstate) (h : hdr) (b : bytes)
-  : hstate * hdr * option h2err :=
+  : hstate * hdr * option h2err * bytes :=
   match fuel with
-  | O => (d, h, Some (EGoAway c_InternalError))   (* unreachable: see header_loop_fuel in Proofs *)
+  | O => (d, h, Some (EGoAway c_InternalError), [])   (* unreachable: fuel = length b + 1 *)
   | S fuel' =>
     match b with
-    | [] => (d, h, None)
+    | [] => (d, h, None, [])
     | _ =>
       match dec_field d (hd_blockFields h) b with
-      | DNone d' => (d', h, None)
+      | DNone d' => (d', h, None, [])
       | DShort d' =>
         if negb eh then
           (d', mkHdr (hd_headersFinished h) (hd_prev h ++ b) (hd_pMethod h) (hd_pScheme h) (hd_pPath h) (hd_pAuth h)
                      (hd_regularSeen h) (hd_contentLength h) (hd_hasCL h) (hd_headerListSize h) (hd_blockFields h)
-                     (hd_path h) (hd_req h), None)
-        else (d', h, Some (EGoAway c_CompressionError))
-      | DFail d' => (d', h, Some (EGoAway c_CompressionError))
-      | DPanic => (d, h, Some EPanic)
+                     (hd_path h) (hd_req h), None, [])
+        else (d', h, Some (EGoAway c_CompressionError), [])
+      | DFail d' => (d', h, Some (EGoAway c_CompressionError), [])
+      | DPanic => (d, h, Some EPanic, [])
       | DField k v rest d' =>
         match header_field cfg h k v with
-        | inl e => (d', h, Some e)
+        | inl e => (d', h, Some e, rest)       (* a stream error: rest is what is left of this frame *)
         | inr h' => header_loop fuel' cfg eh d' h' rest
         end
       end
     end
   end.
+
+(* discardFragment: decode and throw away. Returns the decoder, the fields counted, what a
+   frame boundary cut off, and the error if the block does not decode. *)
+Fixpoint discard_loop (fuel : nat) (eh : bool) (d : hstate) (fields : N) (b : bytes)
+  : hstate * N * bytes * option h2err :=
+  match fuel with
+  | O => (d, fields, [], Some (EGoAway c_InternalError))   (* unreachable: fuel = length b + 1 *)
+  | S fuel' =>
+    match b with
+    | [] => (d, fields, [], None)
+    | _ =>
+      match dec_field d fields b with
+      | DNone d' => (d', fields, [], None)
+      | DShort d' => if negb eh then (d', fields, b, None) else (d', fields, [], Some (EGoAway c_CompressionError))
+      | DFail d' => (d', fields, [], Some (EGoAway c_CompressionError))
+      | DPanic => (d, fields, [], Some EPanic)
+      | DField _ _ rest d' => discard_loop fuel' eh d' (fields + 1) rest
+      end
+    end
+  end.
+
+Definition discard_fragment (cfg : config) (c : sconn) (id : N) (fragment : bytes) (eh : bool) : sconn * option h2err :=
+  let b := sc_discardPrev c ++ fragment in
+  let '(d', fields, carry, e) := discard_loop (S (length b)) eh (sc_dec c) (sc_discardFields c) b in
+  let c1 := upd_dec c d' in
+  match e with
+  | Some e => (upd_discard c1 0 [] fields, Some e)
+  | None =>
+    if eh then (upd_discard c1 0 [] fields, None)
+    else
+      let c2 := upd_discard c1 id carry fields in
+      if ((0 <? cf_maxHeaderList cfg) && (cf_maxHeaderList cfg <? Z.of_N (len carry)))%Z
+      then (c2, Some (EGoAway c_EnhanceYourCalm)) else (c2, None)
+  end.
+
+(* discardHeaderBlock: a whole HEADERS or CONTINUATION frame nobody wants *)
+Definition discard_header_block (cfg : config) (c : sconn) (fr : sframe) : sconn * option h2err :=
+  let c0 := if fkind_eqb (sf_kind fr) KCont then c else upd_discard c (sc_discardID c) [] 0 in
+  discard_fragment cfg c0 (sf_sid fr) (sf_payload fr) (flag_has (sf_flags fr) FL_EH).
 
 Definition handle_header_frame (cfg : config) (c : sconn) (s : stream) (fr : sframe) : sconn * stream * option h2err :=
   if st_headersFinished s && negb (flag_has (sf_flags fr) (FL_ES + FL_EH)) then (c, s, Some (EGoAway c_ProtocolError))
@@ -581,8 +606,24 @@ Definition handle_header_frame (cfg : config) (c : sconn) (s : stream) (fr : sfr
                     (hd_regularSeen h0) (hd_contentLength h0) (hd_hasCL h0) (hd_headerListSize h0)
                     (if fkind_eqb (sf_kind fr) KCont then hd_blockFields h0 else 0) (hd_path h0) (hd_req h0) in
     let b := hd_prev h0 ++ sf_payload fr in
-    let '(d', h2, e) := header_loop (S (length b)) cfg (flag_has (sf_flags fr) FL_EH) (sc_dec c) h1 b in
-    (upd_dec c d', set_hdr s h2, e).
+    let eh := flag_has (sf_flags fr) FL_EH in
+    let '(d', h2, e, rest) := header_loop (S (length b)) cfg eh (sc_dec c) h1 b in
+    let c1 := upd_dec c d' in
+    let s1 := set_hdr s h2 in
+    match e with
+    | Some (EReset code) =>
+      (* failHeaderBlock: the stream is lost, the rest of its block is still decoded *)
+      let c2 := upd_discard c1 (sc_discardID c1) [] (hd_blockFields h2 + 1) in
+      match discard_fragment cfg c2 (st_id s) rest eh with
+      | (c3, Some de) => (c3, s1, Some de)
+      | (c3, None) => (c3, s1, Some (EReset code))
+      end
+    | Some e => (c1, s1, Some e)
+    | None =>
+      if ((0 <? cf_maxHeaderList cfg) && (cf_maxHeaderList cfg <? Z.of_N (len (hd_prev h2))))%Z
+      then (c1, s1, Some (EGoAway c_EnhanceYourCalm))
+      else (c1, s1, None)
+    end.
 
 Definition validate_request_pseudo_headers (s : stream) : option h2err :=
   if negb (st_pMethod s) || negb (st_pScheme s) || negb (st_pPath s) then Some (EReset c_ProtocolError)
@@ -677,7 +718,7 @@ Definition handle_state (fr : sframe) (s : stream) : stream :=
 (* ---------- sending the response ---------- *)
 
 (* refillPending: Some n' = ok, None = the reader failed *)
-Definition refill_pending (n : snd) : option snd :=
+Definition refill_pending (n : sendst) : option sendst :=
   match sn_bodyStream n with
   | None => Some n
   | Some reads =>
@@ -703,13 +744,13 @@ Definition zmin (a b : Z) : Z := if (a <? b)%Z then a else b.
 
 (* sendData. Returns true when the whole response flag_has been queued.
    fuel: see send_data_fuel; every iteration either queues >= 1 byte or takes a scripted read. *)
-Fixpoint send_data_loop (fuel : nat) (c : sconn) (sid : N) (n : snd) : sconn * snd * bool :=
+Fixpoint send_data_loop (fuel : nat) (c : sconn) (sid : N) (n : sendst) : sconn * sendst * bool * bool (* reset by us *) :=
   match fuel with
-  | O => (c, n, false)
+  | O => (c, n, false, false)
   | S fuel' =>
-    let go (c : sconn) (n : snd) :=
+    let go (c : sconn) (n : sendst) :=
       let avail := zmin (sn_window n) (sc_clientWindow c) in
-      if (avail <=? 0)%Z then (c, n, false)
+      if (avail <=? 0)%Z then (c, n, false, false)
       else
         let step := zmin (zmin (Z.of_N maxDataFrameSize) avail) (Z.of_N (len (sn_pending n))) in
         let chunk := takeN (Z.to_N step) (sn_pending n) in
@@ -719,22 +760,22 @@ Fixpoint send_data_loop (fuel : nat) (c : sconn) (sid : N) (n : snd) : sconn * s
         let c2 := upd_clientWindow c1 (sc_clientWindow c1 - step) in
         let n' := mkSnd (sn_window n - step) rest (sn_pendingEnd n) (sn_bodyStream n) (sn_bodySize n) (sn_bodyRead n) in
         (* if end { break }: nothing follows END_STREAM *)
-        if e then (c2, n', true) else send_data_loop fuel' c2 sid n' in
+        if e then (c2, n', true, false) else send_data_loop fuel' c2 sid n' in
     match sn_pending n with
     | [] =>
       match sn_bodyStream n with
-      | None => (c, n, true)
+      | None => (c, n, true, false)
       | Some _ =>
         match refill_pending n with
         | None =>
           (* closeBodyStream; RST_STREAM(INTERNAL_ERROR) *)
           (write_reset c sid c_InternalError,
-           mkSnd (sn_window n) (sn_pending n) (sn_pendingEnd n) None (sn_bodySize n) (sn_bodyRead n), true)
+           mkSnd (sn_window n) (sn_pending n) (sn_pendingEnd n) None (sn_bodySize n) (sn_bodyRead n), true, true)
         | Some n1 =>
           match sn_pending n1 with
           | [] =>
             let c1 := if sn_pendingEnd n1 then emit c (OData sid true []) else c in
-            (c1, n1, true)
+            (c1, n1, true, false)
           | _ => go c n1
           end
         end
@@ -743,7 +784,7 @@ Fixpoint send_data_loop (fuel : nat) (c : sconn) (sid : N) (n : snd) : sconn * s
     end
   end.
 
-Definition send_data_fuel (n : snd) : nat :=
+Definition send_data_fuel (n : sendst) : nat :=
   N.to_nat (len (sn_pending n) / maxDataFrameSize)
   + 3 * (match sn_bodyStream n with Some r => length r | None => 0 end) + 4
   + match sn_bodyStream n with
@@ -752,9 +793,10 @@ Definition send_data_fuel (n : snd) : nat :=
     end.
 
 Definition send_data (c : sconn) (s : stream) : sconn * stream * bool :=
-  let '(c1, n1, done) := send_data_loop (send_data_fuel (get_snd s)) c (st_id s) (get_snd s) in
+  let '(c1, n1, done, weReset) := send_data_loop (send_data_fuel (get_snd s)) c (st_id s) (get_snd s) in
   let n2 := if done then mkSnd (sn_window n1) (sn_pending n1) (sn_pendingEnd n1) None (sn_bodySize n1) (sn_bodyRead n1) else n1 in
-  (c1, set_snd s n2, done).
+  let s1 := set_snd s n2 in
+  (c1, if weReset then set_weReset s1 else s1, done).
 
 (* fasthttpResponseHeaders: :status (stored), then every field lower-cased (not stored) *)
 Fixpoint enc_fields (e : hstate) (l : list (bytes * bytes)) : bytes * hstate :=
@@ -827,7 +869,7 @@ Fixpoint implicit_close (fuel : nat) (c : sconn) (sid : N) : sconn :=
     match sc_strms c with
     | n :: _ =>
       if (st_id n <? sid) && sstate_eqb (st_state n) SIdle && fkind_eqb (st_orig n) KHeaders then
-        let c1 := close_stream c (set_state n SClosed) in
+        let c1 := close_stream c (set_state (set_weReset n) SClosed) in
         implicit_close fuel' (write_reset c1 (st_id n) c_StreamCanceled) sid
       else c
     | [] => c
@@ -840,7 +882,7 @@ Definition after_frame (cfg : config) (c : sconn) (s : stream) (fr : sframe) (wa
     if sstate_eqb (st_state s1) SHalfClosed && st_headersFinished s1 && negb (st_responded s1) then
       let s2 := set_flags s1 true (st_handlerRunning s1) (st_abandoned s1) in
       if st_hasCL s2 && negb (st_recvBody s2 =? st_contentLength s2)%Z then
-        (write_reset c (st_id s2) c_ProtocolError, set_state s2 SClosed)
+        (write_reset c (st_id s2) c_ProtocolError, set_state (set_weReset s2) SClosed)
       else
         (note c (ODispatch (st_id s2) (st_req s2)), set_flags s2 true true (st_abandoned s2))
     else if st_responded s1 && negb (st_handlerRunning s1) && has_more_to_send s1 then
@@ -849,6 +891,14 @@ Definition after_frame (cfg : config) (c : sconn) (s : stream) (fr : sframe) (wa
     else (c, s1) in
   let c3 := if sstate_eqb (st_state s2) SClosed then close_stream (put c2 s2) s2 else put c2 s2 in
   if wasClosing && can_close_after_goaway c3 then brk c3 else cont c3.
+
+(* if err := sc.discardHeaderBlock(fr); err != nil { sc.writeError(nil, err); break loop }; continue *)
+Definition discard_or_break (r : sconn * option h2err) : sconn * bool :=
+  match r with
+  | (c1, Some EPanic) => brk (note c1 (OPanic 1 0))
+  | (c1, Some e) => brk (fst (write_error c1 None e))
+  | (c1, None) => cont c1
+  end.
 
 Definition sl_frame (cfg : config) (c : sconn) (fr : sframe) : sconn * bool :=
   if sf_sid fr =? 0 then
@@ -880,6 +930,10 @@ Definition sl_frame (cfg : config) (c : sconn) (fr : sframe) : sconn * bool :=
     | _ => cont c
     end
   else
+    if fkind_eqb (sf_kind fr) KCont && negb (sc_discardID c =? 0) && (sf_sid fr =? sc_discardID c) then
+      (* the rest of a header block nobody wants *)
+      discard_or_break (discard_header_block cfg c fr)
+    else
     let wasClosing := sc_closing c in
     let found := if sf_sid fr <=? sc_lastID c then strms_search (sc_strms c) (sf_sid fr) else None in
     (* the stream to work on, or the outcome if the frame is dealt with without one *)
@@ -890,19 +944,28 @@ Definition sl_frame (cfg : config) (c : sconn) (fr : sframe) : sconn * bool :=
         if fkind_eqb (sf_kind fr) KRst then
           if sc_lastID c <? sf_sid fr then inl (cont (write_goaway c (sf_sid fr) c_ProtocolError)) else inl (cont c)
         else if in_ring c (sf_sid fr) then
+          let weReset := match ring_find c (sf_sid fr) with Some b => b | None => false end in
           match sf_kind fr with
           | KPriority | KWinUpd | KRst => inl (cont c)
+          | KData =>
+            if weReset then inl (cont (credit_conn_window cfg c (Z.of_N (sf_len fr))))
+            else inl (cont (write_goaway c (sf_sid fr) c_StreamClosedError))
+          | KHeaders =>
+            if weReset then inl (discard_or_break (discard_header_block cfg c fr))
+            else inl (cont (write_goaway c (sf_sid fr) c_StreamClosedError))
           | _ => inl (cont (write_goaway c (sf_sid fr) c_StreamClosedError))
           end
         else if fkind_eqb (sf_kind fr) KPriority then
           if sf_dep fr =? sf_sid fr then inl (cont (write_reset c (sf_sid fr) c_ProtocolError)) else inl (cont c)
-        else if (cf_maxStreams cfg <=? sc_open c)%Z || wasClosing then
-          let c1 := write_reset c (sf_sid fr) c_RefusedStreamError in
-          inl (cont (if fkind_eqb (sf_kind fr) KData then credit_conn_window cfg c1 (Z.of_N (sf_len fr)) else c1))
+        else if fkind_eqb (sf_kind fr) KHeaders && ((cf_maxStreams cfg <=? sc_open c)%Z || wasClosing) then
+          let c1 := mark_closed (write_reset c (sf_sid fr) c_RefusedStreamError) (sf_sid fr) true in
+          inl (discard_or_break (discard_header_block cfg c1 fr))
         else if sf_sid fr <? sc_lastID c then inl (cont (write_goaway c (sf_sid fr) c_ProtocolError))
         else
           (* goAwayMu section: sc_closing is read again; in this model nothing can run in between *)
-          if fkind_eqb (sf_kind fr) KHeaders && sc_closing c then inl (cont (write_reset c (sf_sid fr) c_RefusedStreamError))
+          if fkind_eqb (sf_kind fr) KHeaders && sc_closing c then
+            let c1 := mark_closed (write_reset c (sf_sid fr) c_RefusedStreamError) (sf_sid fr) true in
+            inl (discard_or_break (discard_header_block cfg c1 fr))
           else
             let c1 := if fkind_eqb (sf_kind fr) KHeaders then upd_lastID c (sf_sid fr) else c in
             let s := set_orig_started (new_stream (sf_sid fr) (sc_initWin c1)) (sf_kind fr) (sc_now c1) in
@@ -973,20 +1036,6 @@ Definition sl_done (cfg : config) (c : sconn) (sid : N) (r : response) : sconn *
 
 (* ---------- the stream loop: the request timer ---------- *)
 
-Fixpoint timer_loop (fuel : nat) (cfg : config) (c : sconn) : sconn :=
-  match fuel with
-  | O => c
-  | S fuel' =>
-    match sc_strms c with
-    | s :: _ =>
-      if (st_started s + cf_maxRequestTime cfg <? sc_now c)%Z then
-        let c1 := write_reset c (st_id s) c_StreamCanceled in
-        timer_loop fuel' cfg (close_stream c1 (set_state s SClosed))
-      else c
-    | [] => c
-    end
-  end.
-
 (* deleteUntil counts the due streams at the head first, then closes that many from the head *)
 Fixpoint count_due (cfg : config) (now : Z) (l : list stream) : nat :=
   match l with
@@ -998,7 +1047,7 @@ Fixpoint close_heads (n : nat) (c : sconn) : sconn :=
   | O => c
   | S n' =>
     match sc_strms c with
-    | s :: _ => close_heads n' (close_stream (write_reset c (st_id s) c_StreamCanceled) (set_state s SClosed))
+    | s :: _ => close_heads n' (close_stream (write_reset c (st_id s) c_StreamCanceled) (set_state (set_weReset s) SClosed))
     | [] => c   (* strms[0] on an empty table would panic; count_due <= length makes it unreachable *)
     end
   end.
